@@ -19,7 +19,10 @@ pub struct Doc {
 }
 
 fn backend() -> &'static str {
-	if cfg!(feature = "aws") {
+	// (rcgen with ring and aws_lc_rs both on: the model resolves the name through BackendFeatures)
+	if cfg!(feature = "both") {
+		"both"
+	} else if cfg!(feature = "aws") {
 		"aws"
 	} else {
 		"ring"
